@@ -25,7 +25,7 @@ theorem addsub_extreg_sound (sf : BitVec 32) (op : BitVec 32) (s : BitVec 32) (o
     opt = 0#32 ∧
     (rm.v.ule 30#8 = true ∨ rm.v = 100#8) ∧
     w.extractLsb' 16 5 = (if rm.v.ule 30#8 = true then BitVec.setWidth 5 rm.v else 31#5) ∧
-    w.extractLsb' 13 3 = BitVec.setWidth 3 (Extend.encoding option) ∧
+    w.extractLsb' 13 3 = extendOptionSpec option sf ∧
     imm3.ult 4#32 = true ∧
     w.extractLsb' 10 3 = BitVec.setWidth 3 imm3 ∧
     (rn.v.ule 30#8 = true ∨ rn.v = 101#8) ∧
@@ -35,7 +35,7 @@ theorem addsub_extreg_sound (sf : BitVec 32) (op : BitVec 32) (s : BitVec 32) (o
     w &&& 534773760#32 = 186646528#32 := by
   unfold cls.addsub_extreg at h
   cls_norm at h
-  cases option <;> simp only [Extend.encoding, bind_ok, pure_ok, ok_ok, ex_elim, ex_elim', ex_elim_r, throw, throwThe, MonadExceptOf.throw, reduceCtorEq, false_and, exists_false, and_false] at h ⊢ <;> bv_decide
+  cases option <;> simp only [Extend.encoding_for, Extend.encoding, extendOptionSpec, bind_ok, pure_ok, ok_ok, ex_elim, ex_elim', ex_elim_r, throw, throwThe, MonadExceptOf.throw, reduceCtorEq, false_and, exists_false, and_false] at h ⊢ <;> bv_decide (timeout := 600)
 
 example : ∃ w, cls.addsub_extreg 0#32 0#32 0#32 0#32 R17 Extend.SXTW 0#32 R17 R17 = .ok w := ⟨_, rfl⟩
 
@@ -65,7 +65,7 @@ theorem atomic_op_sound (size : BitVec 32) (v : BitVec 32) (a : BitVec 32) (r : 
     w &&& 991955968#32 = 941621248#32 := by
   unfold cls.atomic_op at h
   cls_norm at h
-  bv_decide
+  bv_decide (timeout := 600)
 
 example : ∃ w, cls.atomic_op 0#32 0#32 0#32 0#32 R17 0#32 0#32 R17 R17 = .ok w := ⟨_, rfl⟩
 
@@ -84,7 +84,7 @@ theorem exception_sound (opc : BitVec 32) (imm16 : BitVec 32) (op2 : BitVec 32) 
     w &&& 4278190108#32 = 3556769792#32 := by
   unfold cls.exception at h
   cls_norm at h
-  bv_decide
+  bv_decide (timeout := 600)
 
 example : ∃ w, cls.exception 0#32 0#32 0#32 0#32 = .ok w := ⟨_, rfl⟩
 
@@ -114,7 +114,7 @@ theorem ldst_exclusive_sound (size : BitVec 32) (o2 : BitVec 32) (l : BitVec 32)
     w &&& 1056964608#32 = 134217728#32 := by
   unfold cls.ldst_exclusive at h
   cls_norm at h
-  bv_decide
+  bv_decide (timeout := 600)
 
 example : ∃ w, cls.ldst_exclusive 0#32 0#32 0#32 0#32 R17 0#32 R17 R17 R17 = .ok w := ⟨_, rfl⟩
 
@@ -139,7 +139,7 @@ theorem ldst_reg_unscaledimm_sound (size : BitVec 32) (v : BitVec 32) (opc : Bit
     w &&& 991955968#32 = 939524096#32 := by
   unfold cls.ldst_reg_unscaledimm at h
   cls_norm at h
-  bv_decide
+  bv_decide (timeout := 600)
 
 example : ∃ w, cls.ldst_reg_unscaledimm 0#32 0#32 0#32 4294967295#32 R17 0#32 = .ok w := ⟨_, rfl⟩
 
@@ -161,7 +161,7 @@ theorem simd_across_lanes_sound (q : BitVec 32) (u : BitVec 32) (size : BitVec 3
     w &&& 2671643648#32 = 238028800#32 := by
   unfold cls.simd_across_lanes at h
   cls_norm at h
-  bv_decide
+  bv_decide (timeout := 600)
 
 example : ∃ w, cls.simd_across_lanes 0#32 0#32 0#32 0#32 F31 F31 = .ok w := ⟨_, rfl⟩
 
